@@ -52,6 +52,15 @@ checks = {
  "C17": dict(tech="bounded-exhaustive enumeration of documents x line-ending and trailing-blank variants on the real library; metamorphic oracle (parsed documents equal)",
     text="All documents of up to 2 (3) lines from 12 templates x {LF,CRLF} x trailing blank per line x 0..5 trailing blank lines render like the plain LF document.",
     note=NOTE),
+ "C07": dict(engine="svgmc7", tech="explicit enumeration of call histories (fresh processes), of corpus orders across 16 processes, of all n! hash-iteration orders at an instrumented seam, and stateless schedule exploration (iterative preemption bounding) of the real library under an owned scheduler",
+    text="(a) all histories up to length 3 (4) over a 12-conversion alphabet, each in a fresh process with the real once_cell tables; (b) a 15k (117k) input corpus converted in 16 different orders by 16 fresh processes and compared output by output; (c) all n! iteration orders of the property map for all sparse 3x3 grids, structured orders with table rebuild for larger drawings; (d) all interleavings of 2-3 threads from the uninitialised table state with at most 2 (3) preemptions at instrumented points; one schedule replayed twice.",
+    note="Schedules are explored at inserted points and lazy-table events (feature `verif`), sequentially consistent; the hash seed of containers other than the instrumented one is covered only by process/repetition sampling (can only add violations)."),
+ "C19": dict(engine="cli_explorer", tech="bounded-exhaustive enumeration of option subsets x output modes and pre-states x input modes x inputs, error cases and build directories against the real CLI binary; differential oracle (library document via the engine)",
+    text="Every subset of the 7 value options x stdout / -o (target absent, empty, longer) / --output x file / stdin / inline x inputs; error cases x input modes; build over every set of up to 3 (4) files x output modes: bytes, exit status, stderr, written files compared with the library and the per-case model.",
+    note="Black-box runs of the release binary built from the working tree; expected documents from the feature-off engine."),
+ "C20": dict(engine="server_explorer", tech="bounded-exhaustive enumeration of request sequences and of client-event interleavings against the real server binary; per-request reference model + library differential",
+    text="All request sequences up to length 2 (3) over 13 request kinds on fresh servers, all length-3 (4) sequences chained on long-lived servers and concatenated on one server; all 252 interleavings of the events of two clients for 9 kind pairs (thorough: 34650 orders of three clients for 3 triples); every response compared with the model.",
+    note="The server's internal scheduling is not controlled: what is enumerated completely is the order of client-visible events. Bodies up to 20 kB (quick 6 kB) plus an exactly-2-MiB blank-padded body and the 413 probe."),
  "C18": dict(tech="bounded-exhaustive enumeration of documents x settings x entry points on the real library; relational oracle between runs",
     text="Corpus x all 8 switch sets, one-factor and all-pairs cosmetic settings, override sizes, five entry points: only the named element / style text / root size may change; entry points agree.",
     note=NOTE),
@@ -62,14 +71,18 @@ m = {
  "version": 1,
  "setup_cmd": "./setup.sh",
  "hooks": {
-   "guard": "cargo feature `verif` of crate svgbob (not yet committed)",
+   "guard": "cargo feature `verif` of crate svgbob",
    "enable": "engine package svgmc7 depends on svgbob with features=[\"verif\"]; all other checks use the feature-off build",
    "baseline_off_cmd": BASE,
-   "source_commits": [],
+   "source_commits": ["ec5d604"],
    "add_only": True,
  },
  "engines": [
-   {"name": "svgmc", "path": "engine/svgmc", "serves_properties": sorted(checks), "kind_free_text": "bounded-exhaustive explorer of the real svgbob library in isolated worker processes, with reference models and metamorphic oracles"},
+   {"name": "svgmc", "path": "engine/svgmc", "serves_properties": sorted(k for k in checks if k not in ("C07","C19","C20")), "kind_free_text": "bounded-exhaustive explorer of the real svgbob library (hooks off) in isolated worker processes, with reference models and metamorphic oracles"},
+   {"name": "svgmc7", "path": "engine/svgmc7", "serves_properties": ["C07"], "kind_free_text": "the same engine built against svgbob with the `verif` feature: history / order / hash-seam enumeration and a stateless schedule explorer (iterative preemption bounding)"},
+   {"name": "cli_explorer", "path": "drivers/cli_explorer.py", "serves_properties": ["C19"], "kind_free_text": "black-box bounded-exhaustive explorer of the svgbob_cli binary"},
+   {"name": "server_explorer", "path": "drivers/server_explorer.py", "serves_properties": ["C20"], "kind_free_text": "black-box explorer of svgbob_server: request sequences and client-event interleavings on raw sockets"},
+   {"name": "expat_xcheck", "path": "drivers/expat_xcheck.py", "serves_properties": ["C02","C08"], "kind_free_text": "binds the in-house XML parser to expat (exhaustive over the character domain) and lets expat judge every distinct output"},
  ],
  "checks": [],
  "notes": "All checks: exit 0 held / 1 violation / 2 machinery error. Known findings in known_findings.json.",
